@@ -109,6 +109,55 @@ class Reference:
     return dvor * k_, ddiv * k_, dT * k_, dlsp * k_
 
 
+  def tendency_moist(self, vor, div, tprime, lsp, q, *, R_vapor, cp_ratio):
+    """MOIST equations, written from the physics (no reference split, no correction terms):
+         momentum:     the pressure-gradient force and the hydrostatic geopotential use the VIRTUAL temperature  Tv = T (1 + (Rv/R - 1) q)
+         temperature:  kappa is the moist one,  kappa (1 + (Rv/R - 1) q) / (1 + (cpv/cp - 1) q),  applied to the full temperature
+         humidity:     dq/dt = -v.grad q - sigma_dot dq/dsigma   (flux form + q div)
+       Everything else (continuity, vertical velocity, omega/p) is kinematic and unchanged."""
+    a, R, kap = self.a, self.R, self.kappa
+    eps = R_vapor / R - 1.0
+    psi = vor * self.inv_lam; chi = div * self.inv_lam
+    U = (self.dlam(chi) - self.dth(psi)) / a
+    V = (self.dlam(psi) + self.dth(chi)) / a
+    Px = self.dlam(lsp)[0] / a; Py = self.dth(lsp)[0] / a
+    A = (U * Px + V * Py) / self.cos2
+    G = self.synth(div) + A
+    ds = self.dsig[:, None, None]
+    cum = jnp.cumsum(G * ds, axis=0)
+    total = cum[-1]
+    sdot = self.sig_half[:, None, None] * total[None] - cum[:-1]
+    f = 2 * self.omega * self.sinlat
+    zeta = self.synth(vor); T = self.synth(tprime); Q = self.synth(q)
+    tref = self.tref[:, None, None]
+    Tabs = T + tref
+    Tv_var = Tabs * (1 + eps * Q) - tref          # virtual temperature minus the (horizontally uniform) reference profile
+    Eu = -V * (zeta + f) - self.adv(sdot, U) + R * Tv_var * Px
+    Ev = U * (zeta + f) - self.adv(sdot, V) + R * Tv_var * Py
+    KE = (U * U + V * V) / (2 * self.cos2)
+    al = self.alpha
+    K = self.K
+    tv_modal = self.proj(Tv_var)
+    phi = []
+    for k in range(K):
+      s = al[k] * tv_modal[k]
+      for j in range(k + 1, K):
+        s = s + (al[j] + al[j - 1]) * tv_modal[j]
+      phi.append(R * s)
+    phi = jnp.stack(phi)
+    cum_prev = jnp.concatenate([jnp.zeros_like(cum[:1]), cum[:-1]], axis=0)
+    al_prev = np.concatenate([[0.0], al[:-1]])
+    omega_p = A - (al[:, None, None] * cum + al_prev[:, None, None] * cum_prev) / ds
+    kap_m = kap * (1 + eps * Q) / (1 + (cp_ratio - 1.0) * Q)
+    dvor = -self.wcurl(Eu, Ev)
+    ddiv = -self.wdiv(Eu, Ev) - self.lam * (self.proj(KE) + self.g * self.h + phi + R * tref * lsp)
+    dT = self.proj(T * self.synth(div) + self.adv(sdot, Tabs) + kap_m * Tabs * omega_p) - self.wdiv(U * T, V * T)
+    dq = self.proj(Q * self.synth(div) + self.adv(sdot, Q)) - self.wdiv(U * Q, V * Q)
+    dlsp = self.proj(-total)[None]
+    k_ = self.keep
+    return dvor * k_, ddiv * k_, dT * k_, dlsp * k_, dq * k_
+
+
 class ReferenceSW:
   """Independent weak-form reference for the layered shallow-water equations (vector-invariant form):
 
